@@ -88,6 +88,11 @@ pub fn decide(x: &[u8]) -> RefOut {
     if n < 10 {
         return RefOut::OutOfClaim("short<10");
     }
+    if n > 259 {
+        // C09 (and C10) quantify over byte strings "up to the SMBus maximum length": 255 counted bytes
+        // plus address, command code, byte count and PEC
+        return RefOut::OutOfClaim("longer-than-smbus-maximum");
+    }
     if !f.hdr_ok {
         return RefOut::Reject(Truth { hdr_bad: true, ty: None, pec_bad: !f.pec_ok, len_bad: false, cc: None, cc_undefined: false });
     }
